@@ -18,9 +18,10 @@ LIVENESS = {'C04': [('MC_Conc_live', ['TypeOK']), ('MC_Conc_seek_live', ['TypeOK
 DEVIATIONS = {
     'C04': [('MC_Dev_NoFallback', 'ReadCorrect'), ('MC_Dev_UnlinkBeforeCommit', 'Recoverable'), ('MC_Dev_NoRetry', 'SeekReadCorrect')],
     'C05': [('MC_Dev_UnlinkBeforeCommit', 'Recoverable'), ('MC_Dev_CommitBeforeFlush', 'Recoverable'),
-            ('MC_MaintDev_UnlinkOldFirst', 'Recoverable'), ('MC_MaintDev_SeekBack', 'Recoverable')],
+            ('MC_MaintDev_UnlinkOldFirst', 'Recoverable'), ('MC_MaintDev_SeekBack', 'Recoverable'),
+            ('MC_MaintDev_NoIntermediateCommit', 'Recoverable')],
     'C06': [('MC_Dev_SkipPackFsync', 'DurableVisible'), ('MC_Dev_RenameBeforeFsync', 'DurableVisible'),
-            ('MC_MaintDev_CommitBeforeFsync', 'DurableVisible')],
+            ('MC_MaintDev_CommitBeforeFsync', 'DurableVisible'), ('MC_MaintDev_ImportFsyncOnlyLast', 'DurableVisible')],
     'C17': [('MC_Dev_CommitBeforeFlush', 'Recoverable'), ('MC_MaintDev_UnlinkOldFirst', 'Recoverable')],
 }
 
